@@ -623,6 +623,12 @@ func (e *Engine) binop(op token.Token, t types.Type, x, y Value, yt types.Type) 
 			return e.tb.Not(e.strLess(xv, yv))
 		}
 	}
+	// pointer laundering idiom (abi.NoEscape): uintptr(p) ^ 0
+	if px, ok := x.(Ptr); ok {
+		if ty, ok := y.(*Term); ok && ty.IsConst() && ty.C == 0 && (op == token.XOR || op == token.OR || op == token.ADD || op == token.SUB) {
+			return px
+		}
+	}
 	switch op {
 	case token.EQL:
 		return e.eqVal(x, y)
@@ -714,6 +720,9 @@ func (e *Engine) conv(dst, src types.Type, x Value) Value {
 			break
 		}
 		if us.Info()&types.IsInteger != 0 {
+			if px, isPtr := x.(Ptr); isPtr {
+				return px // laundered pointer travelling as uintptr
+			}
 			xv := x.(*Term)
 			if db.Info()&types.IsInteger != 0 {
 				w, _, _ := intWidth(db)
